@@ -314,6 +314,7 @@ def main(ctx, replay):
     if info["hbin"] is None:
         raise RuntimeError("harness build failed:\n" + info.get("go_log", ""))
     H = info["hbin"]
+    C.add_property_files(info, ["C06loop"])      # the micro-batch over the queue (Model/PushLoop.v)
     cov = C.proof_coverage(info, "C06")
     assumptions = [
         "lease mutations on the store succeed (the property's stated assumption for the attempt bound)",
